@@ -6,7 +6,7 @@ VERIF = os.path.dirname(os.path.dirname(os.path.abspath(__file__)))
 props = [json.loads(l) for l in open(os.path.join(VERIF, "properties.jsonl"))]
 
 TRUST = ("Trusted, not proved: Verus/Z3/rustc; vstd's std specifications; the assumed std/str/f64 contracts in specs/std.rs and specs/tr.vspec "
-         "and every hoisted closure chain (all enumerated per run in evidence.coverage.trusted_base); the extractor's rewrite rules R1-R31 "
+         "and every hoisted closure chain (all enumerated per run in evidence.coverage.trusted_base); the extractor's rewrite rules R1-R32 "
          "(each application logged in evidence.coverage.units[].rewrite_rules_applied); A-SIZE (DigitString counters < 2^61); allocation never fails. ")
 MECH = ("The end-to-end sentence of the property is a statement about two runs or about whole phrases; what is proved is the set of single-call "
         "contracts that pin it down (each clause tagged with this property id in specs/*.vspec). ")
